@@ -212,7 +212,7 @@ def bindings(t, seq):
                 if all(not (combo[i] & combo[j]) for i in range(n) for j in range(i + 1, n)): out.add(frozenset().union(*combo))
             return out
     raise ValueError(k)
-TS = {"t'2020-01-01T00:00:00Z'": 0, "t'2020-01-01T00:00:01Z'": 1, "t'2020-01-01T00:00:05Z'": 5, "t'2020-01-01T00:00:10Z'": 10}
+TS = {"t'2020-01-01T00:00:00Z'": 0, "t'2020-01-01T00:00:01Z'": 1, "t'2020-01-01T00:00:05Z'": 5, "t'2020-01-01T00:00:10Z'": 10, "t'2020-01-01T00:00:02Z'": 2, "t'2020-01-01T00:00:20Z'": 20}
 def matches(t, seq): return bool(bindings(t, seq))
 def matches_typed(t, seq):
     TYPED[0] = True
